@@ -54,3 +54,32 @@ Theorem C12_entry_throw_clears_marker_mp11 : forall cf mc children contained fwd
   forall kn, nth s (kids rn') None = Some kn -> processing kn = false.
 Proof. exact mp11_entry_throw_clears_marker. Qed.
 Print Assumptions C12_entry_throw_clears_marker_mp11.
+
+(* ---- not wedged, part 2: the whole model ---- *)
+From Msm Require Import Lemmas_Quiesce.
+
+(* idle rn: neither this machine nor any submachine at any depth has its event-processing marker set.
+   For every definition, configuration (engine, compile policy, switch policy), fuel and operation - start, stop,
+   process_event, enqueue_event, the draining calls - with any plan (which behaviour invocations throw, which submit or
+   enqueue further events) and any guard valuation: an idle object is idle again when the operation returns, also when
+   the operation is left through an exception.  The three hypotheses are the probed engine facts of Generated.v. *)
+Theorem C12_operation_leaves_no_marker : forall cf parents,
+  entry_throw_resets cf = true -> start_queues cf = true -> mp11_entry_throw_resets = true ->
+  forall root fuel rn o, idle rn -> idle (fst (run_op cf root (build cf parents false root) fuel rn o)).
+Proof. exact run_op_idle. Qed.
+Print Assumptions C12_operation_leaves_no_marker.
+
+(* ... so after every history of operations on a freshly constructed object no level is wedged; the engine facts are
+   discharged from the values the translator probed on /repo's current headers (this proof breaks when one of them
+   turns false) *)
+Theorem C12_never_wedged : forall cf parents root fuel l,
+  idle (final_state cf parents root fuel (init_rnode root) l).
+Proof. exact not_wedged. Qed.
+Print Assumptions C12_never_wedged.
+
+(* every level of every definition keeps its contract towards the level that contains it *)
+Theorem C12_level_contract : forall cf parents,
+  entry_throw_resets cf = true -> start_queues cf = true -> mp11_entry_throw_resets = true ->
+  forall mc contained, cspec (build cf parents contained mc).
+Proof. exact build_spec. Qed.
+Print Assumptions C12_level_contract.
